@@ -25,6 +25,7 @@ structure Scn where
   fontOk : Bool
   optsOk : Bool          -- -v / -n values valid, no fatal error so far
   preCompileOk : Bool
+  fsmOk : Bool           -- the state machines fit the font tables (the check made after they are generated, error 3174)
   dbgFiles : Bool        -- -D
   dbgXml : Bool          -- -d or -D
   outOpens : Bool        -- destination can be created
@@ -42,7 +43,7 @@ deriving Repr
 def b2n (b : Bool) : Nat := if b then 1 else 0
 
 /-- Stage failure flags, in program order: g1 same-file, g2 GDL missing, g3 encoding, g4 pre-process/parse,
-    g5 post-parse, g6 font, g7 options, g8 pre-compile, g9 output, g10 error file cannot be written (error 106). -/
+    g5 post-parse, g6 font, g7 options, g8 pre-compile, g9 state machines too large / output, g10 error file cannot be written (error 106). -/
 def exitOf (g1 g2 g3 g4 g5 g6 g7 g8 g9 g10 : Bool) : Nat :=
   if g1 || g2 || g3 || g4 || g5 || g6 || g7 || g8 || g9 || g10 then 1 else 0
 
@@ -75,16 +76,17 @@ def outOps (s : Scn) : List Op :=
   if s.preFail then []
   else
     (if s.dbgXml then [Op.writeDebugXml] else []) ++
-    (if s.outOpens then [Op.truncOut] ++ (if s.outWrites then [Op.writeOut] else [Op.removeOut]) else [Op.removeOut])
+    (if !s.fsmOk then []      -- the debug files are written, the destination is not touched at all
+     else if s.outOpens then [Op.truncOut] ++ (if s.outWrites then [Op.writeOut] else [Op.removeOut]) else [Op.removeOut])
 
-def Scn.outFail (s : Scn) : Bool := !s.preFail && !(s.outOpens && s.outWrites)
+def Scn.outFail (s : Scn) : Bool := !s.preFail && !(s.fsmOk && s.outOpens && s.outWrites)
 
 def run (s : Scn) : Res :=
   let g4 := !(s.tmpOk && s.ppOk && s.parseOk)
   { exit := exitOf s.sameInOut (!s.gdlOpens) (!s.encodingOk) g4 (!s.postParseOk) (!s.fontOk) (!s.optsOk) (!s.preCompileOk) s.outFail (!s.errFileOpens),
     errors := errorsOf s.sameInOut (!s.gdlOpens) (!s.encodingOk) g4 (!s.postParseOk) (!s.fontOk) (!s.optsOk) (!s.preCompileOk) s.outFail (!s.errFileOpens),
     ops := [Op.readFont, Op.readGdl] ++ parseOps s ++ outOps s ++ (if s.errFileOpens then [Op.writeErrFile] else []),
-    fontComplete := !s.preFail && s.outOpens && s.outWrites }
+    fontComplete := !s.preFail && s.fsmOk && s.outOpens && s.outWrites }
 
 /-- Exit status 0 exactly when no error was reported. -/
 theorem exit_zero_iff_no_error (s : Scn) : (run s).exit = 0 ↔ (run s).errors = 0 := by
@@ -94,7 +96,7 @@ theorem exit_le_one (s : Scn) : (run s).exit ≤ 1 := by
   simp only [run, exitOf]; split <;> omega
 
 theorem exit_zero_pre (s : Scn) (h : (run s).exit = 0) :
-    s.preFail = false ∧ s.outOpens = true ∧ s.outWrites = true ∧ s.errFileOpens = true := by
+    s.preFail = false ∧ s.outOpens = true ∧ s.outWrites = true ∧ s.errFileOpens = true ∧ s.fsmOk = true := by
   simp only [run, exitOf] at h
   split at h
   · omega
@@ -105,7 +107,7 @@ theorem exit_zero_pre (s : Scn) (h : (run s).exit = 0) :
       simp only [Scn.preFail, h1, h2, h3, h4, h5, h6, h7, h8, Bool.or_self]
     refine ⟨hp, ?_⟩
     simp only [Scn.outFail, hp, Bool.not_false, Bool.true_and, Bool.not_eq_false', Bool.and_eq_true] at h9
-    exact ⟨h9.1, h9.2, by simpa using h10⟩
+    exact ⟨h9.1.2, h9.2, by simpa using h10, h9.1.1⟩
 
 theorem mem_ops (s : Scn) (o : Op) : o ∈ (run s).ops ↔
     (o = Op.readFont ∨ o = Op.readGdl ∨ o ∈ parseOps s ∨ o ∈ outOps s ∨ (s.errFileOpens = true ∧ o = Op.writeErrFile)) := by
@@ -119,9 +121,9 @@ theorem out_not_in_parse (s : Scn) : Op.truncOut ∉ parseOps s ∧ Op.removeOut
 /-- Success: the destination was created by this run, written completely, and not removed. -/
 theorem success_font_complete (s : Scn) (h : (run s).exit = 0) :
     Op.truncOut ∈ (run s).ops ∧ Op.writeOut ∈ (run s).ops ∧ Op.removeOut ∉ (run s).ops ∧ (run s).fontComplete = true := by
-  obtain ⟨hp, ho, hw, _⟩ := exit_zero_pre s h
+  obtain ⟨hp, ho, hw, _, hf⟩ := exit_zero_pre s h
   have hout : outOps s = (if s.dbgXml then [Op.writeDebugXml] else []) ++ [Op.truncOut, Op.writeOut] := by
-    simp [outOps, hp, ho, hw]
+    simp [outOps, hp, ho, hw, hf]
   have hnp := out_not_in_parse s
   refine ⟨?_, ?_, ?_, ?_⟩
   · rw [mem_ops]; right; right; right; left; rw [hout]; simp
@@ -135,7 +137,7 @@ theorem success_font_complete (s : Scn) (h : (run s).exit = 0) :
     · rw [hout] at hc
       cases s.dbgXml <;> simp at hc
     · exact absurd hc.2 (by decide)
-  · simp [run, hp, ho, hw]
+  · simp [run, hp, ho, hw, hf]
 
 /-- Failure (other than the error file itself being unwritable): the destination is either never touched, or
     removed again — no partial font is left behind. -/
@@ -153,17 +155,57 @@ theorem failure_leaves_no_font (s : Scn) (h : (run s).exit ≠ 0) (he : s.errFil
     · simp [outOps, hp] at hc
     · exact absurd hc.2 (by decide)
   · have hp' : s.preFail = false := by simpa using hp
+    by_cases hf : s.fsmOk = true
+    case neg =>
+      -- the state machines do not fit: the destination is never opened
+      left
+      rw [mem_ops]
+      have hnp := out_not_in_parse s
+      intro hc
+      rcases hc with hc | hc | hc | hc | hc
+      · cases hc
+      · cases hc
+      · exact hnp.1 hc
+      · simp only [outOps, hp', Bool.false_eq_true, if_false] at hc
+        cases hx : s.dbgXml <;> simp_all
+      · exact absurd hc.2 (by decide)
     by_cases hok : (s.outOpens && s.outWrites) = true
     · exfalso; apply h
       simp only [run, exitOf]
-      have : s.outFail = false := by simp [Scn.outFail, hp', hok]
+      have : s.outFail = false := by
+        simp only [Bool.and_eq_true] at hok
+        simp [Scn.outFail, hp', hok.1, hok.2, hf]
       simp only [Scn.preFail, Bool.or_eq_false_iff] at hp'
       obtain ⟨⟨⟨⟨⟨⟨⟨h1, h2⟩, h3⟩, h4⟩, h5⟩, h6⟩, h7⟩, h8⟩ := hp'
       simp [h1, h2, h3, h4, h5, h6, h7, h8, this, he]
     · right
       rw [mem_ops]; right; right; right; left
-      simp only [outOps, hp', Bool.false_eq_true, if_false]
+      simp only [outOps, hp', Bool.false_eq_true, if_false, hf]
       cases ho : s.outOpens <;> cases hw : s.outWrites <;> cases hx : s.dbgXml <;> simp_all
+
+/-- State machines that do not fit the font tables (found after they are generated): exit status 1 and the destination
+    is neither opened nor removed. -/
+theorem fsm_failure_touches_nothing (s : Scn) (hp : s.preFail = false) (hf : s.fsmOk = false) :
+    (run s).exit = 1 ∧ Op.truncOut ∉ (run s).ops ∧ Op.removeOut ∉ (run s).ops ∧ Op.writeOut ∉ (run s).ops := by
+  have hnp := out_not_in_parse s
+  have hout : outOps s = (if s.dbgXml then [Op.writeDebugXml] else []) := by simp [outOps, hp, hf]
+  have hof : s.outFail = true := by simp [Scn.outFail, hp, hf]
+  refine ⟨?_, ?_, ?_, ?_⟩
+  · simp [run, exitOf, hof]
+  all_goals
+    rw [mem_ops]
+    intro hc
+    rcases hc with hc | hc | hc | hc | hc
+    · cases hc
+    · cases hc
+    · first | exact hnp.1 hc | exact hnp.2.1 hc | exact hnp.2.2 hc
+    · rw [hout] at hc
+      cases s.dbgXml <;> simp at hc
+    · exact absurd hc.2 (by decide)
+
+example : ({ sameInOut := false, gdlOpens := true, encodingOk := true, tmpOk := true, ppOk := true, parseOk := true,
+             postParseOk := true, fontOk := true, optsOk := true, preCompileOk := true, fsmOk := false, dbgFiles := false,
+             dbgXml := true, outOpens := true, outWrites := true, errFileOpens := true } : Scn).preFail = false := by decide
 
 /-- The destination is not touched before every check has passed. -/
 theorem no_output_before_checks (s : Scn) (h : Op.truncOut ∈ (run s).ops) : s.preFail = false := by
